@@ -257,7 +257,10 @@ def no_absolute_tolerance(ctx, model, prop, rule, prefixes, what):
                 kws = {k.arg: k.value for k in c.keywords}
                 atol0 = "atol" in kws and isinstance(kws["atol"], _ast.Constant) and kws["atol"].value == 0
                 abs0 = fn.startswith("math.") and ("abs_tol" not in kws)
-                ctx.ob(atol0 or abs0, Finding(f"{prop}.{rule}", fi.where, f"{fi.short}|absolute-tolerance:{_ast.unparse(c)[:50]}",
+                # a comparison against a literal of ordinary magnitude (e.g. "fractions sum to 1") has a known scale:
+                # the default absolute tolerance is then negligible next to the relative one
+                known_scale = any(isinstance(a_, _ast.Constant) and isinstance(a_.value, (int, float)) and abs(a_.value) >= 1e-3 for a_ in c.args[:2])
+                ctx.ob(atol0 or abs0 or known_scale, Finding(f"{prop}.{rule}", fi.where, f"{fi.short}|absolute-tolerance:{_ast.unparse(c)[:50]}",
                                               f"line {c.lineno}: `{_ast.unparse(c)[:100]}` compares {what} with an absolute tolerance "
                                               "(numpy default atol=1e-8): values of that size or below (small pressures, small units) are "
                                               "treated as equal / as zero"))
